@@ -352,6 +352,37 @@ def handleIO (op : String) (args : List String) (impl : Option (List String)) : 
       let pv := impl.map fun i => PredHdr.c06_ok Sha.zckHash g (i == ["OK"])
       return (out, pv)
     | _, _ => return ("BADOP", none)
+  | "OPENRETRY", [path, pos, v] =>     -- retries on the same context cannot get a header accepted that a fresh open refuses
+    let f ← readFile path
+    match pos.toNat?, parseHex v with
+    | some pos, some [b] =>
+      let g := f.set pos b
+      let m := Header.openFile Sha.zckHash g
+      let out := match m with | .ok _ => "OK" | .err => "ERR" | .oob _ => "OOB"
+      let pv := impl.map fun i => PredHdr.c06_ok Sha.zckHash g (i == ["OK"])
+      return (out, pv)
+    | _, _ => return ("BADOP", none)
+  | "PINSWAP", [pathA, pathB, t, d, n, mode] =>   -- what the context saw before (file A) does not enter the verdict on file B
+    let fa ← readFile pathA
+    let fb ← readFile pathB
+    match optInt t, optInt n, (if d == "-" then some none else if d == "e" then some (some []) else (parseHex d).map some) with
+    | some t, some n, some d =>
+      let sa := Pin.openSeq Sha.zckHash fa t d n true true
+      match sa with
+      | .optType | .optDigest | .optLen => return (stageStr sa, impl.map fun i => i == (stageStr sa).splitOn " ")
+      | _ =>
+        let first := match sa with | .vlead | .lead => 0 | _ => 1
+        let sb := Pin.openSeq Sha.zckHash fb t d n true false
+        let fin := if sb == .done then "OK" else "ERR"
+        let _ := mode
+        let pv := impl.map fun i =>
+          match i with
+          | "OK" :: rest => match kv rest "final" with
+            | some x => PredHdr.c07_ok Sha.zckHash fb t d n true (x == "OK")
+            | none => false
+          | _ => false
+        return (s!"OK first={first} final={fin}", pv)
+    | _, _, _ => return ("BADOP", none)
   | "READSEQ", [path, sizes, ztab] =>
     let f ← readFile path
     let tab ← loadZtab ztab
